@@ -838,7 +838,7 @@ fn main() {
 non-trivial = the history contains an accepted presentation AND a token that was accepted earlier is rejected later".into();
     let rt = tokio::runtime::Builder::new_current_thread().enable_all().build().expect("rt");
     let (foreign, _fd, _fa) = rt.block_on(setup_idm_test(TestConfiguration::default()));
-    let n_hist = if args.thorough { 600 } else { 44 };
+    let n_hist = if args.thorough { 450 } else { 44 };
     for hid in 0..n_hist {
         history(&rt, &foreign, &mut rng, args.thorough, &mut sink, hid);
     }
